@@ -65,3 +65,12 @@ pub uninterp spec fn vx_trim(s: Seq<char>) -> Seq<char>;
 pub assume_specification[ str::trim ](s: &str) -> (r: &str)
     ensures r@ == vx_trim(s@);
 
+
+/// A2: `str::chars().count()` is the number of chars; a str is at most isize::MAX bytes long
+pub assume_specification<'a>[ <core::str::Chars<'a> as Iterator>::count ](it: core::str::Chars<'a>) -> (r: usize)
+    ensures r == it.remaining().len(), r <= isize::MAX as usize;
+
+
+/// A2: the blanket `impl<T: Clone> ToOwned for T` (used as `&String -> String`) does not panic
+pub assume_specification<T: Clone>[ <T as std::borrow::ToOwned>::to_owned ](t: &T) -> (r: T)
+    ensures r == *t;
